@@ -274,10 +274,9 @@ func execPark(x *fw.Ctx, c Case) {
 func genConc(r *rand.Rand, i int, tier string) Case {
 	ar := 1 + r.IntN(2)
 	c := Case{Kind: "conc", Fam: "clos", Ar: ar, Note: "conc", PSeed: r.Uint64()}
-	// arounds in one case out of four: concurrent calls through an :around
-	// method race on Lambda.Closure (listed finding)
+	// :around methods in one case out of three
 	quals := []string{ref.Primary, ref.Before, ref.After}
-	if r.IntN(4) == 0 {
+	if r.IntN(3) == 0 {
 		quals = allQuals
 		c.Note = "conc-around"
 	}
@@ -296,15 +295,12 @@ func genConc(r *rand.Rand, i int, tier string) Case {
 				}
 			}
 		}
-		if q == ref.Around && 0 < len(st.Applicable(ref.Around, leafArgs(ar))) {
-			q = ref.Before
-		}
 		st.Define(&ref.Method{Qual: q, Spec: spec})
 		c.Pre = append(c.Pre, defOp(q, spec, ref.BodyFlat))
 	}
 	nThr := 2 + r.IntN(7) // 2..8 goroutines
 	nDef := 1
-	if 4 <= nThr && r.IntN(2) == 0 {
+	if 4 <= nThr && r.IntN(4) == 0 {
 		nDef = 2
 	}
 	total := 8 + r.IntN(23) // 8..30 ops
@@ -326,9 +322,6 @@ func genConc(r *rand.Rand, i int, tier string) Case {
 			}
 			q := quals[r.IntN(len(quals))]
 			spec := randSpec(r, ar)
-			if q == ref.Around && 0 < len(st.Applicable(ref.Around, leafArgs(ar))) {
-				q = ref.After
-			}
 			st.Define(&ref.Method{Qual: q, Spec: spec})
 			c.Thr[t] = append(c.Thr[t], defOp(q, spec, ref.BodyFlat))
 			continue
@@ -338,14 +331,6 @@ func genConc(r *rand.Rand, i int, tier string) Case {
 	return c
 }
 
-func leafArgs(ar int) []int {
-	a := make([]int, ar)
-	for i := range a {
-		a[i] = 3
-	}
-	return a
-}
-
 type cinput struct {
 	kind byte
 	m    *ref.Method // D
@@ -353,6 +338,8 @@ type cinput struct {
 	spec []int       // R: specializers, C: classes
 	src  string
 	st0  *ref.State // I: the initial table
+	// exempt (relaxed check only): the call overlaps a change of the table
+	exempt bool
 }
 
 type coutput struct {
@@ -399,6 +386,9 @@ var concModel = porcupine.Model{
 			n.Remove(in.qual, in.spec)
 			return true, box(n)
 		}
+		if in.exempt {
+			return true, sb
+		}
 		fail, _ := judge(sb.st, sb.st.Dispatch(in.spec), out.obs)
 		return fail == "", sb
 	},
@@ -431,6 +421,7 @@ func execConc(x *fw.Ctx, c Case) {
 		in    *cinput
 		code  slip.Code
 		first slip.Object
+		buf   *[]string
 	}
 	plan := make([][]prepared, len(c.Thr))
 	scopes := make([]*slip.Scope, len(c.Thr))
@@ -457,6 +448,7 @@ func execConc(x *fw.Ctx, c Case) {
 					obj := argObj(g.fam, cl, uniq)
 					if i == 0 {
 						p.first = obj
+						p.buf = expectTrace(obj)
 					}
 					v := fmt.Sprintf("%s%d", params[i], k)
 					scopes[t].Let(slip.Symbol(v), obj)
@@ -494,13 +486,18 @@ func execConc(x *fw.Ctx, c Case) {
 					time.Sleep(time.Duration(ps.rng.IntN(100)) * time.Microsecond)
 				}
 				out := &coutput{}
-				call := clock.Add(1)
+				var call, ret int64
+				if !c.NoLin {
+					call = clock.Add(1)
+				}
 				var res slip.Object
 				out.err = sl.Catch(func() { res = p.code.Eval(scopes[t], nil) })
-				ret := clock.Add(1)
+				if !c.NoLin {
+					ret = clock.Add(1)
+				}
 				switch p.in.kind {
 				case 'C':
-					out.obs = observed{Trace: takeTrace(p.first), Err: out.err}
+					out.obs = observed{Trace: *p.buf, Err: out.err}
 					if out.err == nil {
 						out.obs.Value = sl.Show(res)
 					}
@@ -516,6 +513,25 @@ func execConc(x *fw.Ctx, c Case) {
 	close(start)
 	wg.Wait()
 	nRegistered.Store(0)
+	for k := range traces {
+		delete(traces, k)
+	}
+
+	// after the join: every class tuple once more, sequentially; these calls
+	// are part of the history (they overlap nothing)
+	var sweep []porcupine.Operation
+	var sweepOps []string
+	for _, t := range classTuples(c.Ar) {
+		uniq++
+		call := clock.Add(1)
+		got := g.call(g.scope, t, uniq)
+		ret := clock.Add(1)
+		sweep = append(sweep, porcupine.Operation{ClientId: len(c.Thr), Input: &cinput{kind: 'C', spec: t, src: callOp(t)},
+			Call: call, Output: &coutput{obs: got, err: got.Err}, Return: ret})
+		sweepOps = append(sweepOps, callOp(t))
+	}
+	results = append(results, sweep)
+	c.Thr = append(c.Thr, sweepOps)
 
 	hist := []porcupine.Operation{{ClientId: len(c.Thr), Input: &cinput{kind: 'I', st0: st.Clone()}, Call: -2, Output: &coutput{}, Return: -1}}
 	var lines []string
@@ -545,20 +561,29 @@ func execConc(x *fw.Ctx, c Case) {
 			lines = append(lines, ln)
 		}
 	}
-	x.Cover(fmt.Sprintf("conc:goroutines=%d", len(c.Thr)))
+	x.Cover(fmt.Sprintf("conc:goroutines=%d", len(c.Thr)-1))
 	x.CoverN("conc:ops", nOps)
 	x.Observe(map[string]any{"generic": g.name, "initial": st.String(), "history": lines})
 	// internal faults are violations whatever the linearization
 	for _, op := range hist[1:] {
 		out := op.Output.(*coutput)
 		if out.err != nil && out.err.Internal {
-			x.Fail("conc internal-fault", "%s => %s", op.Input.(*cinput).src, out.err)
+			ar := "no"
+			if hasAround {
+				ar = "yes"
+			}
+			x.Fail("conc internal-fault arounds="+ar, "%s => %s; initial methods [%s]; history (logical clock):\n  %s",
+				op.Input.(*cinput).src, out.err, st, strings.Join(lines, "\n  "))
 			return
 		}
 		if out.err != nil && op.Input.(*cinput).kind != 'C' {
 			x.Fail("conc definer-error", "%s => %s", op.Input.(*cinput).src, out.err)
 			return
 		}
+	}
+	if c.NoLin {
+		x.Cover("conc:race-detector-only")
+		return
 	}
 	res := porcupine.CheckOperationsTimeout(concModel, hist, 20*time.Second)
 	switch res {
@@ -567,12 +592,42 @@ func execConc(x *fw.Ctx, c Case) {
 	case porcupine.Unknown:
 		x.Cover("porcupine-unknown")
 	default:
+		// Which calls cannot be explained? Relaxed check: calls that overlap a
+		// change of the table are exempt. If the history is still not
+		// linearizable, a call that overlapped no change saw a table that
+		// never existed at that time (stale); otherwise only calls in flight
+		// during a change are wrong (torn).
+		nExempt := 0
+		for i := range hist {
+			in := hist[i].Input.(*cinput)
+			if in.kind != 'C' {
+				continue
+			}
+			for j := range hist {
+				if k := hist[j].Input.(*cinput).kind; (k == 'D' || k == 'R') && hist[i].Call <= hist[j].Return && hist[j].Call <= hist[i].Return {
+					in.exempt = true
+					nExempt++
+					break
+				}
+			}
+		}
+		relaxed := porcupine.CheckOperationsTimeout(concModel, hist, 20*time.Second)
 		ar := "no"
 		if hasAround {
 			ar = "yes"
 		}
-		x.Fail("conc not-linearizable arounds="+ar,
-			"no linearization of the definitions explains every call; initial methods [%s]; history (logical clock):\n  %s",
-			st, strings.Join(lines, "\n  "))
+		switch relaxed {
+		case porcupine.Unknown:
+			x.Cover("porcupine-unknown")
+		case porcupine.Ok:
+			x.Fail("conc torn-call arounds="+ar,
+				"a call in flight while the method table changed ran a combination of methods that matches the table at no point (no linearization explains every call; "+
+					"it does when the %d calls overlapping a change are exempted); initial methods [%s]; history (logical clock):\n  %s",
+				nExempt, st, strings.Join(lines, "\n  "))
+		default:
+			x.Fail("conc stale-call arounds="+ar,
+				"a call that overlaps no defmethod/remove-method disagrees with every table reachable at that time; initial methods [%s]; history (logical clock):\n  %s",
+				st, strings.Join(lines, "\n  "))
+		}
 	}
 }
